@@ -7,8 +7,10 @@ import (
 	"strings"
 	"time"
 
+	avm "github.com/artela-network/artela-evm/vm"
 	"github.com/ethereum/go-ethereum/common"
 	"github.com/holiman/uint256"
+	"verif/asm"
 	"verif/fw"
 	"verif/gen"
 	"verif/mc"
@@ -89,22 +91,60 @@ func c03Bound(tier string) int {
 func c03ForEach(w *fw.W, fn func(family string, cs *world.Case, ans int, label string, choices []int)) {
 	th := w.Thorough()
 	stop := func() bool { return w.Expired() }
-	// (b) journal matrix
-	mc.Explore(c03Bound(w.Tier), func(c *mc.Ctx) {
-		jc := buildJM(c, th, true)
-		if !w.Mine() {
-			return
+	// the small families come first, so that a run cut by its deadline has covered them
+	// (e) frames of every kind over every kind of target: the six host entry points and the six call/create
+	// instructions aimed at code-less, absent, stopping, failing and reverting targets / init codes (a frame that
+	// ends before its first instruction still has to close its bookkeeping)
+	codes := [][]byte{nil, {asm.STOP}, {asm.INVALID}, asm.New().Push(0).Push(0).Op(asm.REVERT).Bytes(), asm.New().Push(0).Push(0).Op(asm.RETURN).Bytes()}
+	for _, f := range []world.Fork{world.Frontier, world.Byzantium, world.Shanghai} {
+		for ci, code := range codes {
+			for _, e := range []string{"call", "callcode", "delegatecall", "staticcall", "create", "create2"} {
+				if (e == "staticcall" && f < world.Byzantium) || (e == "create2" && f < world.Constantinople) {
+					continue
+				}
+				for _, absent := range []bool{false, true} {
+					for _, val := range []uint64{0, 1} {
+						if (absent && (e == "create" || e == "create2")) || (val != 0 && (e == "delegatecall" || e == "staticcall")) || !w.Mine() {
+							continue
+						}
+						cs := gen.StdCase(f, code, e, 100000)
+						if e == "create" || e == "create2" {
+							cs.Input, cs.Salt = code, 5
+						}
+						if absent {
+							cs.To = gen.Absent
+						}
+						if val != 0 {
+							cs.Value = world.Big(val)
+						}
+						cs.Note = fmt.Sprintf("FRAMES host entry=%s code=%d absent=%v value=%d", e, ci, absent, val)
+						fn("FRAMES", cs, 0, "frames:"+e, nil)
+					}
+				}
+			}
 		}
-		fn("JM", jc.Case, 0, jc.Op, c.Choices())
-	}, stop)
-	// (c) Artela precompiles
-	mc.Explore(c03Bound(w.Tier), func(c *mc.Ctx) {
-		pc := buildPC(c, th)
-		if !w.Mine() {
-			return
+		for _, spec := range gen.StdOps() {
+			switch spec.Op {
+			case asm.CALL, asm.CALLCODE, asm.DELEGATECALL, asm.STATICCALL, asm.CREATE, asm.CREATE2, asm.SELFDESTRUCT:
+			default:
+				continue
+			}
+			spec, f := spec, f
+			gen.ExploreOperands(spec, 1, func(ops []*uint256.Int, choice []int) {
+				if !w.Mine() {
+					return
+				}
+				for _, entry := range []string{"call", "staticcall"} {
+					if entry == "staticcall" && f < world.Byzantium {
+						continue
+					}
+					cs := gen.StdCase(f, gen.BuildIM(f, spec, gen.Shape{}, ops), entry, 200000)
+					cs.Note = fmt.Sprintf("FRAMES op=%#x entry=%s operands=%v", spec.Op, entry, choice)
+					fn("FRAMES", cs, 0, "frames:"+avm.OpCode(spec.Op).String(), nil)
+				}
+			})
 		}
-		fn("PC", pc.Case, pc.HostAns, fmt.Sprintf("%#x:%s", pc.Target, pc.Reach.Kind), c.Choices())
-	}, stop)
+	}
 	// (d) sequences of journal instructions on one recorder (registrations, journals, nested registrations in any order)
 	steps := c03SeqSteps()
 	L := 3
@@ -143,6 +183,22 @@ func c03ForEach(w *fw.W, fn func(family string, cs *world.Case, ans int, label s
 			}
 		})
 	}
+	// (b) journal matrix
+	mc.Explore(c03Bound(w.Tier), func(c *mc.Ctx) {
+		jc := buildJM(c, th, true)
+		if !w.Mine() {
+			return
+		}
+		fn("JM", jc.Case, 0, jc.Op, c.Choices())
+	}, stop)
+	// (c) Artela precompiles
+	mc.Explore(c03Bound(w.Tier), func(c *mc.Ctx) {
+		pc := buildPC(c, th)
+		if !w.Mine() {
+			return
+		}
+		fn("PC", pc.Case, pc.HostAns, fmt.Sprintf("%#x:%s", pc.Target, pc.Reach.Kind), c.Choices())
+	}, stop)
 	// (a) every byte string of length <= 2 as code, including the Artela bytes
 	for _, f := range jmForks {
 		for n := 0; n < 65536+256+1; n++ {
@@ -228,7 +284,7 @@ func init() {
 		ID:        "C03",
 		Level:     "model_checking",
 		Technique: "bounded exhaustive enumeration of byte programs, journal-opcode operand/memory/storage boundary products and Artela-precompile payload/reach products, each executed on the real code under recover() in memory-limited worker processes with a state-access sentinel; post-condition on the same EVM",
-		Rule: "cases = (a) every byte string of length <=2 as code (bare and with seeded stack) on 5 forks; (b) journal matrix: opcode 0xe0-0xe7 x operand tuples with <=k non-default operands from the boundary alphabet J x memory under the pointer (length word from J, 0-2 data words, or empty) x storage head word alphabet (short/long/invalid string encodings, huge lengths) x key registered or not x static or not x 5 forks; (c) precompiles 0x64-0x66 x 12 reaches (4 call kinds from depth 1 and 2, 4 host entry points) x payload lengths x ABI head/length words with <=k deviations x host answer x 3 forks. Oracle: the entry point returns (no Go panic, worker alive), then depth==0, call-tree cursor nil, static flag clear and a follow-up call on the same EVM is announced as a depth-0 start. non-trivial = distinct cases whose frame ended with an error",
+		Rule: "cases = (a) every byte string of length <=2 as code (bare and with seeded stack) on 5 forks; (b) journal matrix: opcode 0xe0-0xe7 x operand tuples with <=k non-default operands from the boundary alphabet J x memory under the pointer (length word from J, 0-2 data words, or empty) x storage head word alphabet (short/long/invalid string encodings, huge lengths) x key registered or not x static or not x 5 forks; (c) precompiles 0x64-0x66 x 12 reaches (4 call kinds from depth 1 and 2, 4 host entry points) x payload lengths x ABI head/length words with <=k deviations x host answer x 3 forks; (d) sequences of <= 3 (4) journal instructions on one recorder; (e) the six host entry points and the six call/create instructions (operand tuples with <= 1 deviation) aimed at code-less, absent, stopping, failing and reverting targets / init codes on Frontier, Byzantium, Shanghai. Oracle: the entry point returns (no Go panic, worker alive), then depth==0, call-tree cursor nil, static flag clear and a follow-up call on the same EVM is announced as a depth-0 start. non-trivial = distinct cases whose frame ended with an error",
 		Assumptions: []string{
 			"initialised host: non-nil block number, Aspect instance created, context callbacks installed, StateDB prepared",
 			"operand/length values outside the boundary alphabet J are not covered",
